@@ -614,7 +614,10 @@ Definition obj_body (fuel : nat) (rec : N -> bytes -> W unit) (addr : N) (path :
                            wret true
                        | None => wret false
                        end;;
-          _ <<- (if negb (has_msg 5 ms) && negb (has_msg 4 ms) then sdev T_dataset_no_fillvalue_msg
+          (* the fill value message (0x0005) is required since library version 1.6; a dataset whose layout message has version 1 or 2
+             was written before it existed (or by 1.6.0-1.6.2 together with it) and may have neither fill value message *)
+          _ <<- (if negb (has_msg 5 ms) && negb (has_msg 4 ms) then
+                   if hd 0 lyb <? 3 then wret tt else sdev T_dataset_no_fillvalue_msg
                  else match first_of 5 ms with
                       | Some fv => v <<- wlc 36 (spec_dec_fillvalue pad fv);; wret tt
                       | None => wret tt
